@@ -57,6 +57,15 @@ Definition status_event (e : event) : bool :=
   | _ => false
   end.
 
+(* bound_partial_ok with the IMPLEMENTATION's tracked count in place of the
+   model's: an excess over Max that forks in flight account for *)
+Definition bound_partial_obs (c : cfg) (tracked_now : N) (s : st) : bool :=
+  (N.to_nat tracked_now + length (s_inflight s) <=? N.to_nat (c_max c) + pred (s_peak s))%nat.
+
+(* WorkerForked moves an entry from the boot address to the local address (or
+   finds none): it never adds one *)
+Definition rekey_ok (tracked_before tracked_after : N) : bool := (tracked_after <=? tracked_before)%N.
+
 (* state groups: at most one member active *)
 Definition groups_ok (groups : list (list nat)) (active : list nat) : bool :=
   forallb (fun g => exclusive_ok g active) groups.
